@@ -15,7 +15,12 @@ MANIFEST_ENTRY = dict(
          'concurrent clients on a detached server (and single-client attached servers), with raising tasks at every position of the task '
          'tree, under random/PCT schedules. Every reply is judged by the L1 state machine: status consistent with the task\'s state, results '
          'only the task\'s own output, errors carrying the message of a task that really raised and only to the owning client, no request '
-         'left unanswered, other clients undisturbed, and a fresh probe client can still submit and get a result afterwards.',
+         'left unanswered, other clients undisturbed, and a fresh probe client can still submit and get a result afterwards. Task trees in '
+         'which a descendant nobody awaits raises while the root still completes (fire-and-forget submit, early return from a next() loop), '
+         'with the ERROR delivered before or AFTER the root\'s RESULT (a race scheduler steers that order): the first request the client '
+         'makes after the system has settled must fail with a task error (clause raised-error-never-reported; only demanded when the raise '
+         'precedes, in the trace, every event that cancels that task, and the client did not cancel the compilation). Client scripts are '
+         'also derived from TLC behaviours of ServerClients.tla (disconnect with finished-unclaimed compilations, ERROR after RESULT).',
     note='Trusted as for C07. Replies the statement leaves open (cancel/status of an unknown or delivered id) may be any explicit reply; a '
          'connection dropped without a reply is a violation unless the server had already refused that client explicitly. The probe clause '
          'applies to detached servers only (an attached server belongs to its single client).',
